@@ -116,4 +116,103 @@ theorem readAt_block (c : Codec V) (hu : c.mult = 1) (bs : List Bits) (t : Bits)
   simp only [h1, if_false]
   rw [Nat.mul_comm c.L k, block_at c.L bs t hbs k hk]
 
+theorem toNat_zero_add_mul (k L : Nat) : ((0 : Int) + (k : Int) * (L : Int)).toNat = k * L := by
+  have : (0 : Int) + (k : Int) * (L : Int) = ((k * L : Nat) : Int) := by push_cast; ring
+  rw [this]; exact Int.toNat_natCast _
+
+theorem mapM_except_ok {α β} (f : α → Except Err β) (g : α → β) (l : List α) (h : ∀ x ∈ l, f x = .ok (g x)) :
+    l.mapM f = .ok (l.map g) := by
+  induction l with
+  | nil => rfl
+  | cons a l ih =>
+    have h1 := h a (by simp)
+    have h2 := ih (fun x hx => h x (by simp [hx]))
+    simp only [List.mapM_cons, h1, h2, List.map_cons]
+    rfl
+
+/-- `range(0, len(data) - L + 1, L)` has one entry per whole item. -/
+theorem rangeLen_tolist (n L r : Nat) (hL : 0 < L) (hr : r < L) :
+    Py.rangeLen 0 (((n * L + r : Nat) : Int) - L + 1) L = n := by
+  unfold Py.rangeLen
+  have hL' : (L : Int) > 0 := by omega
+  simp only [hL', if_true]
+  cases n with
+  | zero =>
+    have : ¬ ((0 : Int) < ((0 * L + r : Nat) : Int) - L + 1) := by
+      simp only [Nat.zero_mul, Nat.zero_add]; omega
+    rw [if_neg this]
+  | succ m =>
+    have e : (((m + 1) * L + r : Nat) : Int) - L + 1 - 0 - 1 = (r : Int) + (m : Int) * L := by
+      push_cast; ring
+    have hpos : (0 : Int) < (((m + 1) * L + r : Nat) : Int) - L + 1 := by
+      have : (0 : Int) ≤ (r : Int) + (m : Int) * L := by positivity
+      omega
+    simp only [hpos, if_true]
+    rw [e, Int.add_mul_ediv_right _ _ (by omega), Int.ediv_eq_zero_of_lt (by omega) (by omega)]
+    omega
+
+theorem mapM_id_ok {β} (l : List β) : (l.map (fun x => (Except.ok x : Except Err β))).mapM id = .ok l := by
+  induction l with
+  | nil => rfl
+  | cons a l ih =>
+    simp only [List.map_cons, List.mapM_cons, id, ih]
+    rfl
+
+/-- The `start += L` generator, started at item `j`, reads the next `n` items. -/
+theorem iterLoop_blocks (c : Codec V) (hu : c.mult = 1) (bs : List Bits) (t : Bits)
+    (hbs : ∀ b ∈ bs, b.length = c.L) (n j : Nat) (h : j + n ≤ bs.length) :
+    iterLoop c (bs.flatten ++ t) n (c.L * j) = ((bs.drop j).take n).map fun b => .ok (c.dec b) := by
+  induction n generalizing j with
+  | zero => simp [iterLoop]
+  | succ n ih =>
+    have hj : j < bs.length := by omega
+    unfold iterLoop
+    rw [readAt_block c hu bs t hbs j hj]
+    have e : c.L * j + c.L = c.L * (j + 1) := by ring
+    rw [e, ih (j + 1) (by omega)]
+    rw [List.drop_eq_getElem_cons hj, List.take_succ_cons, List.map_cons]
+
+theorem bOverwrite_nat (d nb : Bits) (p : Nat) (hnb : nb.length ≠ 0) (hp : p + nb.length ≤ d.length) :
+    bOverwrite d nb (p : Int) = .ok (d.take p ++ nb ++ d.drop (p + nb.length)) := by
+  unfold bOverwrite
+  have h1 : ¬ ((p : Int) < 0) := by omega
+  have h2 : ¬ ((p : Int) < 0 ∨ (p : Int) > d.length) := by omega
+  simp only [hnb, h1, h2, if_false]
+  have e : (p : Int) + (nb.length : Int) = ((p + nb.length : Nat) : Int) := by push_cast; rfl
+  rw [e, bsetSlice_nat d nb p (p + nb.length) (by omega) hp (by omega)]
+  have h3 : ¬ (False ∨ (p : Int) > d.length) := by
+    intro h; rcases h with h | h
+    · exact h
+    · omega
+  rw [if_neg h3]
+
+/-- Overwriting item `k` of a buffer in block form. -/
+theorem overwrite_block (L : Nat) (hL : 0 < L) (bs : List Bits) (t nb : Bits) (hbs : ∀ b ∈ bs, b.length = L)
+    (hnb : nb.length = L) (k : Nat) (hk : k < bs.length) :
+    bOverwrite (bs.flatten ++ t) nb ((L * k : Nat) : Int) = .ok ((bs.set k nb).flatten ++ t) := by
+  have hlen : (bs.flatten ++ t).length = bs.length * L + t.length := by
+    rw [List.length_append, blocks_flatten_length L bs hbs]
+  have hk' : (k + 1) * L ≤ bs.length * L := Nat.mul_le_mul_right _ hk
+  have e1 : (k + 1) * L = L * k + L := by ring
+  rw [bOverwrite_nat _ _ _ (by omega) (by rw [hlen, hnb]; omega), hnb]
+  rw [Nat.mul_comm L k, set_block L bs t nb hbs k hk]
+
+theorem set_blocks_length (L : Nat) (bs : List Bits) (nb : Bits) (hbs : ∀ b ∈ bs, b.length = L) (hnb : nb.length = L)
+    (k : Nat) : ∀ b ∈ bs.set k nb, b.length = L := by
+  intro b hb
+  rcases List.mem_or_eq_of_mem_set hb with h | h
+  · exact hbs b h
+  · rw [h]; exact hnb
+
+theorem setItem_blocks (c : Codec V) (hu : c.mult = 1) (hL : 0 < c.L) (hwf : c.WF) (bs : List Bits) (t : Bits)
+    (hbs : ∀ b ∈ bs, b.length = c.L) (ht : t.length < c.L) (i : Int) (v : V) (b : Bits) (hv : c.enc v = .ok b)
+    (k : Nat) (hn : normIndex bs.length i = .ok k) :
+    setItem c (bs.flatten ++ t) i v = ⟨(bs.set k b).flatten ++ t, .ok ()⟩ := by
+  obtain ⟨hce, hbl, _⟩ := createElement_ok c hu hwf v b hv
+  obtain ⟨hk, _⟩ := normIndex_ok _ _ _ hn
+  unfold setItem
+  rw [(view_of_blocks c hu hL bs t hbs ht).2.2.2, hn]
+  simp only [hce]
+  rw [overwrite_block c.L hL bs t b hbs hbl k hk]
+
 end BM.C14
